@@ -500,6 +500,30 @@ func init() {
 					return ex.codecError("trailing data")
 				}
 			}
+			// encoding/json appends to a slice after resetting its length to zero: elements
+			// within the old capacity are decoded INTO what the backing array already
+			// holds (a non-nil pointer is reused, not replaced), and the result shares
+			// that backing array.
+			if nv, ok := v.([]Value); ok {
+				if old, ok := (*cell).([]Value); ok && cap(old) > 0 {
+					full := old[:cap(old)]
+					for i := range nv {
+						if i >= len(full) {
+							break
+						}
+						if op, ok := full[i].(*Value); ok && op != nil {
+							if np, ok := nv[i].(*Value); ok && np != nil {
+								*op = *np
+								nv[i] = op
+							}
+						}
+						full[i] = nv[i]
+					}
+					if len(nv) <= len(full) {
+						v = full[:len(nv)]
+					}
+				}
+			}
 			store(pt.Elem(), cell, v)
 			return Iface{}
 		})
